@@ -69,6 +69,7 @@ def plan(tier, seed):
         ch.append({"key": f"A/containers/{arch}", "kind": "containers", "arch": arch, "cost": 3000})
     for part in range(8):
         ch.append({"key": f"B/constructors/{part}", "kind": "constructors", "part": part, "cost": 4000})
+    ch.append({"key": "B/history-independence", "kind": "history", "cost": 800})
     return ch
 
 
@@ -275,7 +276,8 @@ def container(kind, arch, blk_obf, prepend, stub, nonce, decoy_raw=b""):
 def chunk_containers(chunk, acc):
     arch = chunk["arch"]
     B = blocks(acc.seed)
-    stubs = {"none+marker": xorenc.MARKER, "call": xorenc.CALL_STUB, "sled": b"\x90" * 1000 + xorenc.MARKER}
+    # "sled-size-only": no end-of-stub marker, the nonce sits at offset 1020 - only the size field can locate it
+    stubs = {"none+marker": xorenc.MARKER, "call": xorenc.CALL_STUB, "sled": b"\x90" * 1000 + xorenc.MARKER, "sled-size-only": b"\x90" * 1020, "short-size-only": b"\x90\x90"}
     nonces = (b"\x00\x00\x00\x00", b"\x12\x34\x56\x78", b"\xfe\xdc\xba\x98")
     for bname in ("two", "realistic"):
         for key in (0x69, 0x2E, 0x00, 0xAF):
@@ -419,6 +421,45 @@ def chunk_constructors(chunk, acc):
     acc.sample({"constructors": ["from_bytes", "from_file", "from_path"], "containers": ["raw0", "raw", "rawcut", "pe", "xor", "none"], "checked": ["config_block", "xorkey", "xorencoded", "settings_tuple", "ValueError when nothing"]})
 
 
+def chunk_history(chunk, acc):
+    """Extraction is a function of the payload: the same payload gives the same answer whatever was extracted before
+    it in the same process (the priority *between* leftover keys is implementation-defined, but it is a fixed one)."""
+    B = blocks(acc.seed)
+    quiet = bytes((b % 200) + 20 for b in lcg(400, acc.seed + 8))  # no runs of equal bytes, none of the keys below
+    pay = {}
+    for ka, kb in ((0x10, 0xAA), (0xAA, 0x10), (0x77, 0x81), (0xF0, 0x11)):
+        pay[f"two-leftover/{ka:02x}-{kb:02x}"] = quiet[:50] + RC.obfuscate(B["two"], ka) + quiet[50:90] + RC.obfuscate(B["minimal"], kb) + quiet[90:]
+    promoters = {}
+    for k in (0xAA, 0x10, 0x81, 0x11):
+        # zero padding of the block turns into a long run of the key byte, which the all-keys retry counts
+        promoters[f"promote/{k:02x}"] = bytes(lcg(9000, acc.seed + k)) + RC.obfuscate(B["two"].ljust(4096, b"\x00"), k) + bytes(lcg(50, acc.seed + 1))
+
+    def extract(data):
+        bc = run_constructor("bytes", data, None, True)
+        return bc if isinstance(bc, str) else (bytes(bc.config_block)[:32].hex(), bc.xorkey.hex(), bc.xorencoded, len(bc.settings_tuple))
+
+    first = {name: extract(d) for name, d in pay.items()}
+    for pname, q in promoters.items():
+        acc.states += 1
+        extract(q)
+        for name, d in pay.items():
+            acc.transitions += 1
+            again = extract(d)
+            acc.case((pname, name), outcome=again)
+            if again != first[name]:
+                acc.fail("C01/constructor/result-depends-on-earlier-extractions", {"kind": "Bhistory", "payload": name, "after": pname, "seed": acc.seed}, list(first[name]) if not isinstance(first[name], str) else first[name], list(again) if not isinstance(again, str) else again)
+    # and the candidate generator likewise
+    for name, d in pay.items():
+        a = lib_candidates(d, None, True, 8192)
+        lib_candidates(promoters["promote/aa"], None, True, 8192)
+        b = lib_candidates(d, None, True, 8192)
+        acc.transitions += 1
+        acc.case(("gen", name), outcome=len(a) if isinstance(a, list) else a)
+        if a != b:
+            acc.fail("C01/search/result-depends-on-earlier-extractions", {"kind": "Bhistory", "payload": name, "after": "promote/aa", "seed": acc.seed}, summ(a) if isinstance(a, list) else a, summ(b) if isinstance(b, list) else b)
+    acc.sample({"history": ["extract P (two blocks under leftover keys 10 and aa)", "extract Q (promotes aa)", "extract P again"], "oracle": "same answer for P"})
+
+
 def run_chunk(chunk, acc):
     globals()["chunk_" + chunk["kind"]](chunk, acc)
 
@@ -434,6 +475,8 @@ def replay(case):
     a = Acc("replay", "quick", case.get("seed", 0))
     if case["kind"] == "Abig":
         chunk_bigbuffer({"block": case["block"]}, a)
+    elif case["kind"] == "Bhistory":
+        chunk_history({}, a)
     elif case["kind"] in ("Acont", "Arawdecoy"):
         chunk_containers({"arch": case["arch"]}, a)
     else:
